@@ -247,11 +247,11 @@ func (t *Target) WaitUntilHealthy(timeout time.Duration) bool {
 
 func (t *Target) HealthCheckCompleted(success bool) {
 	verifYield("hc_result", t, success)
-	previousState := t.state
-	newState := t.state
+	var previousState, newState TargetState
 	becameHealthy := false
 
 	t.withInflightLock(func() {
+		previousState = t.state
 		switch success {
 		case true:
 			switch t.state {
